@@ -326,6 +326,30 @@ PROPS["C14"] = dict(
     ],
 )
 
+
+PROPS["C19"] = dict(
+    level="exploration",
+    rule=("real Unix sockets and real runtimes (tokio current-thread, tokio multi-thread, smol): connected pairs made by "
+          "socketpair, bind+connect and Listener::try_from(OwnedFd); 1/2/4/8 concurrent connections, each exchanging 3..16 "
+          "(thorough 40) messages per direction AT THE SAME TIME (sizes 0 B..1 MiB incl. 254..257 and 510..513 and sizes above "
+          "the kernel socket buffer; every third message pipelined with enqueue), writer and reader paced independently; "
+          "abandoned sends: peer not reading, a 600 KB send dropped by a timer after a partial write, more sends, then the "
+          "peer drains - observed once as raw bytes and once through a zlink connection; connection ids collected from 8 "
+          "threads x both transports; a case = one such scenario (seeded); distinct = hash of its description"),
+    oracle=("transfer: the receiver regenerates every message body from (direction, id) - received sequence == sent sequence, "
+            "byte for byte, then end-of-stream after the peer closes; ids pairwise distinct; abandoned sends: every frame at "
+            "the peer is byte-identical to one submitted message, each at most once, in submission order, and every send that "
+            "returned Ok is present. Time only drives the workload; verdicts come from the recorded history; watchdog firings "
+            "are inconclusive"),
+    assumptions=["kernel socket buffer < 600 KB so that the big send blocks while the peer does not read"],
+    floor_quick=100, floor_thorough=1000,
+    steps=[
+        dict(layer="native", package="rt", monitor="c19", shards_quick=8, shards_thorough=16, timeout_quick=900),
+        dict(layer="asan", package="rt", monitor="c19", shards_thorough=8, tier="thorough"),
+    ],
+)
+SETUP_EXTRA += [("asan", "rt")]
+
 LEVEL_TEXT = {}
 
 def _na():
